@@ -1,7 +1,7 @@
 """C16 — hydroelastic forces: action-reaction, symmetry, frames (structural clauses)."""
 from . import scopes
 from ..core.report import DOMAIN_D
-from ..rules import eager, hydro, frame, sides, unpack
+from ..rules import eager, hydro, frame, sides, unpack, misc2
 from .common import e1, e2
 
 HY = "distance3d.hydroelastic_contact."
@@ -28,4 +28,6 @@ def run(idx, rep, tier):
     frame.r_frame(idx, rep, e2(idx), modules=HYM, floor=20)
     mods = None        # the property scope (sa/props/scopes.py) selects the functions
     eager.r_attr(idx, rep, it, modules=mods, floor=10)
+    misc2.r_dupcond(idx, rep, [m.name for m in idx.lib_modules()], floor=3)
+    misc2.r_stiffness(idx, rep)
     unpack.r_unpack(idx, rep, floor=14)
